@@ -6,6 +6,7 @@ import (
 	"fmt"
 	"math/rand"
 	"sort"
+	"strings"
 	"sync"
 	"sync/atomic"
 	"time"
@@ -17,6 +18,7 @@ import (
 	"verif/harness/broker"
 	"verif/harness/memnet"
 	"verif/harness/uplib"
+	"verif/harness/vrun"
 	"verif/harness/world"
 )
 
@@ -344,6 +346,13 @@ func Run(s Scenario) (*Outcome, string) {
 				sendWG.Wait()
 				metaCancel()
 				metaWG.Wait()
+				// a goroutine dump tells a leaked lock (library goroutines parked on a mutex for the whole 30 s) from mere slowness
+				dump := vrun.AllStacks()
+				for _, g := range vrun.ParseStacks(dump) {
+					if strings.Contains(g.Text, vrun.LibPrefix) && (strings.Contains(g.Header, "sync.Mutex.Lock") || strings.Contains(g.Header, "sync.RWMutex")) {
+						return nil, "LOCKLEAK:" + g.InnermostLib() + "\n" + g.Text
+					}
+				}
 				return nil, fmt.Sprintf("ReadDataPoints did not return an item within 30 s (read %d of %d)", n, limit)
 			}
 			rr.Err = err.Error()
